@@ -609,3 +609,37 @@ func VerifH_C12_jsonMaxFieldsSequence() {
 	}
 	vf.Reach("sequence-decoded")
 }
+
+// C12.H9: Pipeline.In calls one decoder object from every input goroutine at once (k8s, http and file inputs
+// have several), without a lock unless the decoder takes one itself: decoding must not write to the decoder.
+// The engine counts the stores into memory reachable from the decoder while it decodes.
+func VerifH_C12_decodersSharedReadOnly() {
+	types := []Type{JSON, NGINX_ERROR, SYSLOG_RFC3164, SYSLOG_RFC5424, CSV}
+	lines := [][]string{
+		{`{"a":1,"b":"x"}` + "\n", `{"c":[1,2]}` + "\n", "not json\n"},
+		{"2022/08/17 10:49:27 [error] 1#2: *3 msg\n", "garbage\n"},
+		{"<34>Oct 11 22:14:15 mymachine.example.com myproc[10]: failed\n", "garbage\n"},
+		{"<165>1 2003-10-11T22:14:15.003Z host app - ID47 [ex@1 k=\"v\"] msg\n", "garbage\n"},
+		{"a,b,c\n", "x,\"y z\",\n", "q\"r\n"},
+	}
+	ti := vf.Choose("decoder", len(types))
+	dec, err := New(types[ti], nil)
+	if err != nil || dec == nil {
+		vf.Fail("decoder-construction")
+		return
+	}
+	for round := 0; round < 2; round++ {
+		ls := lines[ti]
+		line := []byte(ls[vf.Choose("line", len(ls))])
+		root := insaneJSON.Spawn()
+		_ = root.DecodeString("{}")
+		writes := vf.SharedWrites(dec, func() { _ = dec.DecodeToJson(root, line) })
+		if vf.Param("twin", 0) == 1 {
+			vf.Assert(writes != 0, "decoding-does-not-write-to-the-shared-decoder")
+			return
+		}
+		vf.Assert(writes == 0, "decoding-does-not-write-to-the-shared-decoder")
+		insaneJSON.Release(root)
+	}
+	vf.Reach("decoders-read-only")
+}
